@@ -52,4 +52,63 @@ def run_c20(prop, tier, seed, replay):
     return code
 
 
-REGISTRY = {"C20": run_c20}
+
+
+def run_c08(prop, tier, seed, replay):
+    t0 = time.time()
+    work = os.path.join(P.WORKROOT, f"{prop}-{tier}")
+    shutil.rmtree(work, ignore_errors=True)
+    os.makedirs(work)
+    out = P.Outcome(prop)
+    cases = os.path.join(work, "cases.ndjson")
+    insts = []
+    if replay:
+        payload = json.load(open(replay))
+        open(cases, "w").write(json.dumps({"doc": payload["doc"], "mt": payload["mt"], "expect": payload["expect"]}) + "\n")
+    else:
+        open(cases, "w").close()
+        for cfg in (["an_q"] if tier == "quick" else ["an_q", "an_t"]):
+            r = P.tlc_mc(os.path.join(MC, "MC_Analyzer.tla"), os.path.join(MC, cfg + ".cfg"), work, workers=min(8, P.NCPU), heap="8g", timeout=10800)
+            if r["errors"] or r["violated"]:
+                raise P.ToolError(f"MC_Analyzer {cfg}: {r['errors'] or r['violated']}")
+            n = P.extract("REPLAY", r["out"], cases, "a")
+            os.remove(r["out"])
+            r["cases"] = n
+            insts.append({k: r[k] for k in ("name", "generated", "distinct", "wall", "cases")})
+    reps = 2 if tier == "quick" else 6
+    rp = os.path.join(work, "res.json")
+    rr = P.sh([P.DGV, "replay-analyzer", "--cases", cases, "--result", rp, "--seed", str(seed), "--reps", str(reps), "--corpus", "/repo/tests/specs"], timeout=3000)
+    if rr.returncode != 0:
+        raise P.ToolError("dgv replay-analyzer failed")
+    res = json.load(open(rp))
+    lines = open(cases).readlines()
+    for m in res["mismatches"]:
+        payload = dict(property=prop, source="replay-analyzer", what=m["what"], observed=m.get("observed"), text=m.get("text"))
+        if "case" in m and m.get("doc") is not None:
+            c = json.loads(lines[m["case"]])
+            payload.update(doc=c["doc"], mt=c["mt"], expect=c["expect"])
+        out.violation(f"{m['what']} {m.get('mt', '')} {json.dumps(m.get('doc'))[:100]}", payload)
+    code = out.finish()
+    nontrivial = 0
+    for l in lines:
+        c = json.loads(l)
+        if c["expect"]["deps"] or c["expect"]["jsdoc"] or c["expect"]["tsRefs"] or c["expect"]["sourceMap"]:
+            nontrivial += 1
+    coverage = dict(evaluations=res["documents"], distinct_nontrivial=nontrivial,
+                    rule="every document of Analyzer.tla with at most MaxItems items over the 33-item vocabulary x 9 headers x 2 footers x 6 media types (TLC-enumerated); "
+                         "non-trivial = the expected ModuleInfo is non-empty; each document is rendered `reps` times with seeded trivia (block/line comments, astral and combining "
+                         "characters, CRLF, unicode escapes in string literals, random quote style) and analysed by ParserModuleAnalyzer",
+                    samples=[json.loads(lines[i]) for i in (0, len(lines) // 2, len(lines) - 1)] if lines else [],
+                    exhaustive=not replay, descriptors=res["descriptors"], ranges_checked=res["ranges_checked"],
+                    corpus_modules=res["corpus_modules"], corpus_descriptors=res["corpus_descriptors"], corpus_ranges=res["corpus_ranges"], instances=insts,
+                    concrete_clauses=["every reported range, mapped onto the text (0-based line, character = Unicode scalar index), covers exactly the specifier token (quotes included when quoted)",
+                                      "Dependency::includes(position) is answered by exactly the owning dependency for start / middle / end of every token and by none outside"])
+    P.write_evidence(prop, tier, seed, "exploration", coverage, time.time() - t0, len(out.violations),
+                     assumptions=["'every statically analysable dependency and nothing else' is decided for the modelled vocabulary, not for all of ECMAScript",
+                                  "a module without any statement is not decided for the source-map pragma"])
+    if tier == "quick" or code == 0:
+        shutil.rmtree(work, ignore_errors=True)
+    return code
+
+
+REGISTRY = {"C20": run_c20, "C08": run_c08}
